@@ -57,6 +57,7 @@ static void check_input(Ctx& cx, const Paths& S, const Paths& C, const Paths& O,
   auto K = [&](int ct, int fr, const char* api) {
     if (!cx.key_prefix.empty()) { Case c = Case::parse(cx.key_prefix); c.set("ct", ct).set("fr", fr).set("api", api); return c.s(); }
     Case c = Case::parse(ckey(S, C, ct, fr, api)); if (!O.empty()) c.set("O", O); return c.s(); };
+  arm_watchdog(60);   // CPU-time limit per input: a library call that does not return is attributed to this case (crash_signal_26)
   rep.current_case = [&]() { return K(cur_ct, cur_fr, cur_api); };
   for (int ct = 1; ct <= 4; ++ct) for (int fr = 0; fr < 4; ++fr) {
     if (only_ct && ct != only_ct) continue;
@@ -118,7 +119,7 @@ static void check_input(Ctx& cx, const Paths& S, const Paths& C, const Paths& O,
       }
     }
   }
-  rep.current_case = nullptr;
+  arm_watchdog(0); rep.current_case = nullptr;
 }
 
 // ---------------------------------------------------------------- ring family
